@@ -299,6 +299,24 @@ func genC03(r *vh.Runner) {
 			c.Bubble(func() { writersRun(r, c, i) })
 		})
 	}
+	nz := r.Pick(8, 200)
+	for i := 0; i < nz; i++ {
+		r.Case(fmt.Sprintf("tamper-by-size/%d", i), map[string]any{"rep": i}, func(c *vh.Case) {
+			c.Bubble(func() { tamperBySizeRun(r, c, i) })
+		})
+	}
+	nh := r.Pick(6, 100)
+	for i := 0; i < nh; i++ {
+		r.Case(fmt.Sprintf("handshake-limits-and-later-traffic/%d", i), map[string]any{"rep": i}, func(c *vh.Case) {
+			c.Bubble(func() { hsLimitsRun(r, c, i) })
+		})
+	}
+	nb := r.Pick(8, 200)
+	for i := 0; i < nb; i++ {
+		r.Case(fmt.Sprintf("short-read-buffers/%d", i), map[string]any{"rep": i}, func(c *vh.Case) {
+			c.Bubble(func() { shortBufferRun(r, c, i) })
+		})
+	}
 	nl := r.Pick(32, 3000)
 	for i := 0; i < nl; i++ {
 		r.Case(fmt.Sprintf("long-replay/%d", i), map[string]any{"rep": i}, func(c *vh.Case) {
@@ -1229,4 +1247,169 @@ func queuedWritesRun(r *vh.Runner, c *vh.Case, i int) {
 			return
 		}
 	}
+}
+
+// tamperBySizeRun: messages of every length around the 200-byte blocks of the
+// cipher; for each, a copy with one bit flipped (anywhere, and in particular in
+// the last 200 bytes) arrives before the genuine packet. Nothing altered is
+// ever delivered, the genuine message is.
+func tamperBySizeRun(r *vh.Runner, c *vh.Case, i int) {
+	rng := vh.NewRand(r.Seed, "c03-tbs", i)
+	w, sessions, ok := setup(r, c, rng, 1)
+	if !ok {
+		teardown(w, sessions)
+		return
+	}
+	defer teardown(w, sessions)
+	s := sessions[0]
+	m := &monitor{seed: r.Seed, written: map[msgID]int{}, seen: map[msgID]int{}, c: c, r: r, phase: "tamper-by-size"}
+	where := "anywhere"
+	w.Net.SetPolicy(func(d *simnet.Datagram) []simnet.Delivery {
+		if len(d.Data) < 16+32 || d.Data[0] != 0x10 {
+			return []simnet.Delivery{{Data: d.Data, Src: d.Src, Dst: d.Dst, Tag: "genuine"}}
+		}
+		bad := append([]byte(nil), d.Data...)
+		body := len(bad) - 16 - 32 // ciphertext bytes between the header and the tag
+		pos := 16 + rng.Intn(len(bad)-16)
+		if where == "last-block" && body > 0 {
+			pos = 16 + body - 1 - rng.Intn(min(body, 200))
+		}
+		bad[pos] ^= 1 << rng.Intn(8)
+		return []simnet.Delivery{{Data: bad, Src: d.Src, Dst: d.Dst, Tag: "bit-flipped:" + where}, {Data: d.Data, Src: d.Src, Dst: d.Dst, Tag: "genuine"}}
+	})
+	seq := uint32(0)
+	sizes := []int{hdrLen, 199, 200, 201, 399, 400, 401, 599, 600, 601, 800, 1000, 1001, 1200, 1400, 2000, 4000}
+	for _, n := range sizes {
+		for _, wh := range []string{"last-block", "anywhere"} {
+			where = wh
+			for _, dir := range []byte{dirC2S, dirS2C} {
+				wr, _ := s.end(dir)
+				seq++
+				id := msgID{s.idx, dir, 0, seq}
+				m.wrote(id, n)
+				if err := wr.WriteMsg(build(r.Seed, id, n)); err != nil {
+					c.Violate("C03:write-fails-on-live-session:tamper-by-size", map[string]any{"len": n, "err": err.Error()})
+					return
+				}
+			}
+			bub.Settle(2 * time.Millisecond)
+			drain(m, sessions, time.Millisecond)
+			if c.Violated() {
+				return
+			}
+		}
+	}
+	r.Count("evaluations", int64(seq))
+	r.Count("messages_written", int64(seq))
+	if miss := m.missing(func(msgID) bool { return true }); len(miss) > 0 {
+		c.Violate("C03:unauthenticated-datagram-disturbed-session:message-lost", map[string]any{"missing": miss[:min(len(miss), 8)], "n_missing": len(miss)})
+		return
+	}
+	r.Nontrivial(fmt.Sprintf("tamper-by-size|%d", i))
+}
+
+// shortBufferRun: a reader that offers buffers which are too short (and retries
+// with a longer one, possibly still too short) gets an error, never a piece of
+// a message; with a buffer that is long enough it gets the whole message.
+func shortBufferRun(r *vh.Runner, c *vh.Case, i int) {
+	rng := vh.NewRand(r.Seed, "c03-short", i)
+	w, sessions, ok := setup(r, c, rng, 1)
+	if !ok {
+		teardown(w, sessions)
+		return
+	}
+	defer teardown(w, sessions)
+	s := sessions[0]
+	for k := 0; k < 12 && !c.Violated(); k++ {
+		dir := byte(rng.Intn(2))
+		wr, rd := s.end(dir)
+		n := hdrLen + rng.Pick(0, 10, 100, 500, 1000, 3000)
+		id := msgID{s.idx, dir, 0, uint32(k + 1)}
+		msg := build(r.Seed, id, n)
+		if err := wr.WriteMsg(msg); err != nil {
+			c.Inconclusive("write: " + err.Error())
+			return
+		}
+		bub.Settle(2 * time.Millisecond)
+		tries := []int{rng.Intn(n), n - 1 - rng.Intn(min(n-1, 40)), n - 1, n + rng.Intn(50)}
+		if rng.Bool() {
+			tries = tries[rng.Intn(3):]
+		}
+		for _, bl := range tries {
+			buf := make([]byte, max(bl, 0))
+			rd.SetReadDeadline(time.Now().Add(20 * time.Millisecond))
+			got, err := rd.ReadMsg(buf)
+			rd.SetReadDeadline(time.Time{})
+			r.Count("evaluations", 1)
+			r.Count("reads_with_chosen_buffer_length", 1)
+			if err == nil && (got != n || !bytes.Equal(buf[:got], msg)) {
+				c.Violate("C03:delivered-message-altered:short-read-buffer", map[string]any{"message_len": n, "buffer_len": bl, "returned": got})
+				return
+			}
+			if err == nil {
+				break
+			}
+			if bl >= n {
+				c.Violate("C03:message-lost-on-faithful-network:after-short-read-buffers", map[string]any{"message_len": n, "buffer_len": bl, "err": err.Error()})
+				return
+			}
+		}
+	}
+	r.Nontrivial(fmt.Sprintf("short-buffers|%d", i))
+}
+
+// hsLimitsRun: however the client's handshake was limited in time (a timeout,
+// an absolute deadline, both, neither), the limit is over once the session is
+// up: messages written long after it arrive, in both directions.
+func hsLimitsRun(r *vh.Runner, c *vh.Case, i int) {
+	rng := vh.NewRand(r.Seed, "c03-hslimits", i)
+	cv := &transport.VerifyConfig{}
+	w := fix.NewWorld(false, cv, nil)
+	cv.Store = w.PKI.Store()
+	defer w.Server.Close()
+	id := w.PKI.Issue(certs.RawStringName("client"))
+	shape := []string{"timeout-only", "deadline-only", "both", "neither"}[i%4]
+	ep := w.Net.Listen(w.FreshAddr())
+	cfg := fix.ClientConfig(id, w.VerifyServer(), 0, nil)
+	if rng.Chance(0.3) {
+		cfg.ServerKEMKey = &w.ServerID.KEM.Public
+	}
+	if shape == "timeout-only" || shape == "both" {
+		cfg.HSTimeout = 2 * time.Second
+	}
+	if shape == "deadline-only" || shape == "both" {
+		cfg.HSDeadline = time.Now().Add(time.Duration(1+rng.Intn(3)) * time.Second)
+	}
+	cl := transport.NewClient(ep, w.SrvAddr, cfg)
+	if err := cl.Handshake(); err != nil {
+		c.Inconclusive("handshake: " + err.Error())
+		return
+	}
+	defer cl.Close()
+	h, err := w.Server.AcceptTimeout(2 * time.Second)
+	if err != nil {
+		c.Inconclusive("accept: " + err.Error())
+		return
+	}
+	buf := make([]byte, 4096)
+	for round, wait := range []time.Duration{0, 5 * time.Second, time.Minute} {
+		time.Sleep(wait)
+		for dir, pair := range [][2]mconn{{cl, h}, {h, cl}} {
+			msg := build(r.Seed, msgID{0, byte(dir), 0, uint32(round + 1)}, hdrLen+20)
+			if err := pair[0].WriteMsg(msg); err != nil {
+				c.Violate("C03:write-fails-on-live-session:after-handshake-limit:"+shape, map[string]any{"err": err.Error(), "after": wait.String()})
+				return
+			}
+			pair[1].SetReadDeadline(time.Now().Add(2 * time.Second))
+			n, err := pair[1].ReadMsg(buf)
+			pair[1].SetReadDeadline(time.Time{})
+			r.Count("evaluations", 1)
+			if err != nil || !bytes.Equal(buf[:n], msg) {
+				c.Violate("C03:message-lost-on-faithful-network:after-handshake-limit:"+shape, map[string]any{"direction": dir, "after": wait.String(), "err": fmt.Sprint(err)})
+				return
+			}
+		}
+	}
+	r.Count("handshake_limit_shapes:"+shape, 1)
+	r.Nontrivial(fmt.Sprintf("hs-limits|%d", i))
 }
